@@ -243,7 +243,9 @@ class Network(MutableMapping):
             Timestamp of the message, preferably as a Unix timestamp
         """
         if can_id in self.subscribers:
-            callbacks = self.subscribers[can_id]
+            # Dispatch to the callbacks subscribed when the message arrived;
+            # a callback may subscribe or unsubscribe (itself or others)
+            callbacks = list(self.subscribers[can_id])
             for callback in callbacks:
                 callback(can_id, data, timestamp)
         self.scanner.on_message_received(can_id)
